@@ -55,17 +55,35 @@ def match_known(known, prop, violation):
     return None
 
 
+class CaseTimeout(BaseException):
+    pass
+
+
+def _alarm(signum, frame):
+    raise CaseTimeout()
+
+
 def _work(mod_name, seed, idxs, tier, opts):
+    import signal
     faulthandler.enable()
-    faulthandler.dump_traceback_later(opts.get('case_timeout', 600) * max(1, len(idxs)), exit=True)
+    faulthandler.register(signal.SIGUSR1, all_threads=True)
+    limit = opts.get('case_timeout', 120)
+    faulthandler.dump_traceback_later(3 * limit * max(1, len(idxs)) + 60, exit=True)
+    signal.signal(signal.SIGALRM, _alarm)
     mod = importlib.import_module(mod_name)
     out = []
     for idx in idxs:
         t0 = time.time()
+        signal.setitimer(signal.ITIMER_REAL, limit)
         try:
             r = mod.case(seed, idx, tier)
+        except CaseTimeout:
+            # inconclusive, counted; never a verdict (and never silently a pass: see main)
+            r = {'key': f'timeout-{idx}', 'timed_out': True, 'outcomes': {'case_timeout': 1}}
         except Exception:   # noqa: BLE001
             r = {'harness_error': traceback.format_exc()}
+        finally:
+            signal.setitimer(signal.ITIMER_REAL, 0)
         r['idx'] = idx
         r['t'] = time.time() - t0
         out.append(r)
@@ -134,7 +152,7 @@ def main(mod_name, argv=None):
     chunks = [idxs[i:i + chunk] for i in range(0, len(idxs), chunk)]
     results = {}
     harness_errors = []
-    opts = {'case_timeout': tier.get('case_timeout', 300)}
+    opts = {'case_timeout': tier.get('case_timeout', 120)}
     ctx = mp.get_context('fork')
     stopped_early = False
     try:
@@ -258,6 +276,9 @@ def main(mod_name, argv=None):
             print(f'KNOWN-FINDING: property={mod.ID} {ent["id"]}: {ent["what"]} (e.g. case {idx})')
     print(f'{mod.ID} {args.tier}: {evaluations} cases, {len(keys_nontrivial)} distinct non-trivial, '
           f'{len(violations)} violations, {len(harness_errors)} harness errors, {wall_s:.1f}s')
+    timeouts = agg['outcomes'].get('case_timeout', 0)
+    if timeouts > max(3, evaluations // 20):
+        harness_errors.append(f'{timeouts} of {evaluations} cases hit the per-case wall limit')
     if harness_errors:
         for h in harness_errors[:5]:
             print('HARNESS-ERROR', h, file=sys.stderr)
